@@ -79,6 +79,11 @@ type c05Step struct {
 	// bytes really handed over are the buffer's; the connection has broken the Read contract, which
 	// counts as a failure of that side.
 	Over int `json:"over,omitempty"`
+	// Epoch: right before this step is delivered the statistics epoch rolls over (the harness calls
+	// ProxyStats.PrintAndReset / Reset and Stats.Reset, as the station does every 5 s) while the
+	// tunnel is open. Honoured where no other direction can be adding to the counters at that
+	// moment (controlled schedules, Proxy level).
+	Epoch bool `json:"epoch,omitempty"`
 }
 
 // c05WF is an injected result of the Call-th Write on a connection. Accept >= 0: that many bytes are
@@ -170,6 +175,7 @@ type c05World struct {
 	pan     [2]any
 	timer   *time.Timer
 	wgN     func() int // current WaitGroup counter (nil: unknown)
+	onEpoch func()     // statistics epoch roll-over (called with the world locked)
 	// spin detection
 	abort      *c05Viol // set when a direction kept calling after a failure (see c05SpinLimit)
 	afterAbort int
@@ -463,6 +469,7 @@ type c05Conn struct {
 	rdlSeq    int           // ... set by the call with this sequence number
 	rdlVT     time.Duration // ... at this virtual time
 	stepBase  time.Duration // virtual time at which the previous read step was delivered completely
+	epochAt   int           // index+1 of the last step whose epoch roll-over was performed
 	arrived   bool          // the current step's pause is over
 	endHit    bool
 	failed    [5]string // per call kind (0 Read, 1 Write, 2-4 SetDeadline by up / down / unattributed): first failure handed out
@@ -591,6 +598,10 @@ func (c *c05Conn) read(d int, p []byte) (int, error) {
 					continue
 				}
 				c.arrived = true
+			}
+			if st.Epoch && c.epochAt <= c.ri && w.onEpoch != nil && !w.free && w.abort == nil {
+				c.epochAt = c.ri + 1
+				w.onEpoch()
 			}
 			n := st.N - c.off
 			if n > len(p) {
